@@ -177,6 +177,7 @@ def run(chk: Check):
     S = slice
     corpus = [c for c in c01.CORPUS if c[0] in ("F2", "F11a", "F11b", "F17", "F18", "F20", "F20w")]
     corpus.append(("F24", ("broadcast_to", ("flip", ("diff", ("src", 0), 0), 0), (3, 5)), [(np.arange(6, dtype="int64"), ((2, 4),))]))
+    corpus.append(("C01-S2", ("slice", ("call", "flatten_after_T", (), (("ones", (1, 4), ((1,), (1, 1, 2))),)), (2,)), []))
     rc = c02_rules.RuleCheck(chk)
     for tag, prog, sources in corpus:
         run_program(chk, da, prog, sources, progs.eval_np(prog, sources), rc)
